@@ -48,7 +48,8 @@ class Graph:
         data = {n: {'component': Extern('weakref()', (lambda c, o=o: o))} for n, o in self.comps.items()}
         nodes = Obj('nodes', __getitem__=Extern('graph.nodes.__getitem__', lambda c, n: data[n]),
                     __call__=None)
-        g = Obj('graph', predecessors=Extern('graph.predecessors', lambda c, n: [a for (a, b) in self.edges if b == n]),
+        # networkx returns a ONE-SHOT iterator (iter over the predecessor dictionary), not a list
+        g = Obj('graph', predecessors=Extern('graph.predecessors', lambda c, n: iter([a for (a, b) in self.edges if b == n])),
                 has_node=Extern('graph.has_node', lambda c, n: n in data))
         nodes_callable = NodesView(data)
         g.nodes = nodes_callable
@@ -115,8 +116,14 @@ class Schedule(Target):
             stage = 1 if same_stage else 0
             name = 'stage%d.p%d' % (stage, i)
             st = c.enum('p%d.state' % i, STATES)
-            p = make_component(c, name, stage, state=st, isReplicating=c.one_of('p%d.replica' % i, [False, True]),
+            # (whether a producer is a replica only matters to an aggregating consumer)
+            p = make_component(c, name, stage, state=st,
+                               isReplicating=c.one_of('p%d.replica' % i, [False, True]) if is_agg else False,
                                isLooping=False)
+            # finish() has been CALLED on the first producer but its state has not changed yet (finish is asynchronous):
+            # that producer is not done -- only comp_done / a final state counts
+            if i == 0:
+                p.finishCalled = c.one_of('p0.finishCalled', [False, True])
             p_done = c.one_of('p%d.done' % i, [False, True])
             p_staged = c.one_of('p%d.staged' % i, [False, True])
             if p_done:
